@@ -162,6 +162,42 @@ def max(v):  # noqa: A001
     return m
 
 
+def isclose(a, b, rtol=1e-05, atol=1e-08):
+    """numpy.isclose for scalars (and element-wise for sequences): |a - b| <= atol + rtol * |b|."""
+    if isinstance(a, (list, tuple)) or isinstance(b, (list, tuple)):
+        aa = a if isinstance(a, (list, tuple)) else [a] * len(b)
+        bb = b if isinstance(b, (list, tuple)) else [b] * len(a)
+        return ndarray(isclose(x, y, rtol, atol) for x, y in zip(aa, bb))
+    if a is None or b is None or isinstance(a, (str, dict)) or isinstance(b, (str, dict)):
+        raise TypeError("ufunc 'isfinite' not supported for the input types")
+    d = a - b
+    d = -d if d < 0 else d
+    m = -b if b < 0 else b
+    return d <= atol + rtol * m
+
+
+def allclose(a, b, rtol=1e-05, atol=1e-08):
+    return all(isclose(a, b, rtol, atol))
+
+
+def all(v):  # noqa: A001
+    if isinstance(v, (list, tuple)):
+        for x in v:
+            if not x:
+                return False
+        return True
+    return True if v else False
+
+
+def any(v):  # noqa: A001
+    if isinstance(v, (list, tuple)):
+        for x in v:
+            if x:
+                return True
+        return False
+    return True if v else False
+
+
 _TAPE = {"t": None}
 
 
@@ -233,4 +269,12 @@ def selftest():
         assert clip(x, lo, hi) == rnp.clip(x, lo, hi), (x, lo, hi)
     assert min([3, 1, 2]) == rnp.min([3, 1, 2]) and abs(-2.5) == rnp.abs(-2.5)
     eq(array([1, 2, 3])[:2], rnp.array([1, 2, 3])[:2])
+    for a, b in [(1.0, 1.0), (1.0, 1.00001), (1.0, 1.0001), (0.0, 1e-9), (0.0, 1e-7), (-5000.0, -5000.01), (1e5, 1e5 + 2)]:
+        assert bool(isclose(a, b)) == bool(rnp.isclose(a, b)), (a, b)
+        assert bool(all(isclose(a, b))) == bool(rnp.all(rnp.isclose(a, b))), (a, b)
+    try:
+        isclose(1.0, None)
+        raise AssertionError("isclose(x, None) must raise TypeError like numpy")
+    except TypeError:
+        pass
     return True
